@@ -917,6 +917,9 @@ func (c *compiler) compile(tok *token) []instruction {
 		res = append(res, instruction{Code: code})
 	case "negate", "!":
 		res = append(res, c.compile(tok.Tokens[0])...)
+		if operand := tok.Tokens[0]; tok.Symbol == "negate" && operand.Symbol == "(float)" && operand.Float64() == 0 {
+			break // constants are exact: -0.0 is 0, only the negation of a variable gives a negative zero
+		}
 		res = append(res, instruction{Code: prefixMap[tok.Symbol]})
 	case "complement":
 		res = append(res, c.compile(tok.Tokens[0])...)
